@@ -19,6 +19,13 @@ OpsA == {O("head", 0, "-"), O("head", 1, "-"), O("head", 2, "-"), O("head", 5, "
          O("tail", 1, "-"), O("tail", 5, "-"), O("skip", 0, "-"), O("skip", 1, "-"), O("skip", 5, "-"),
          O("distinct", 0, "mod2"), O("reverse", 0, "-"), O("sort", 0, "ltmod3"),
          O("filter", 0, "odd"), O("map", 0, "sqpe"), O("split", 2, "-"), O("walk", 0, "flat")}
+\* pairs of operators: early close (Head) against everything that waits for the end of its input
+OpsC == {O("head", 0, "-"), O("head", 1, "-"), O("head", 2, "-"), O("tail", 1, "-"), O("skip", 1, "-"),
+         O("distinct", 0, "mod2"), O("reverse", 0, "-"), O("sort", 0, "ltmod3"), O("filter", 0, "odd"),
+         O("split", 2, "-"), O("walk", 0, "flat"), O("group", 0, "mod2")}
+TermsC == {T("count", 0, "-"), T("first", 0, "-"), T("any", 0, "even"), T("forall", 1, "-"), T("parallel", 0, "-")}
+SrcC == {<<3, 1, 2>>}
+GatesC == {-1, 1}
 TermsA == {T("count", 0, "-"), T("first", 0, "-"), T("last", 0, "-"), T("any", 0, "even"),
            T("all", 0, "odd"), T("forall", 1, "-"), T("max", 0, "ltmod3")}
 \* every operator once
@@ -26,7 +33,14 @@ OpsB == {O("buffer", 1, "-"), O("head", 2, "-"), O("tail", 2, "-"), O("skip", 1,
          O("distinct", 0, "mod3"), O("reverse", 0, "-"), O("sort", 0, "gt"), O("filter", 0, "gt2"),
          O("map", 0, "inc"), O("map", 0, "len"), O("map", 0, "sum"), O("walk", 0, "dup"), O("walk", 0, "odd1"),
          O("walk", 0, "flat"), O("split", 0, "-"), O("split", 3, "-"), O("merge", 0, "-"), O("group", 0, "mod2"),
-         OC(<<<<7>>, <<>>, <<1, 8>>>>), O("tail", 0, "-")}
+         OC(<<<<7>>, <<>>, <<1, 8>>>>), O("tail", 0, "-"), O("head", 0, "-"), O("head", 5, "-"),
+         \* worker options (the law ignores them) and the package-level Concat (n = 1)
+         OW("map", 0, "sqpe", 2), OW("walk", 0, "dup", -1), OW("filter", 0, "even", -2), OW("map", 0, "dbl", 1),
+         [op |-> "concat", n |-> 1, f |-> "-", w |-> 0, o |-> <<<<4, 4>>>>]}
+\* the operators that multiply items (every order of the output bag is a behaviour): checked on a 2-item source
+OpsBx == {o \in OpsB : o.op = "concat" \/ (o.op = "walk" /\ o.f = "dup") \/ (o.op = "tail" /\ o.n = 0)}
+OpsBs == OpsB \ OpsBx
+SrcB2 == {<<2, 1>>}
 TermsB == {T("count", 0, "-"), T("first", 0, "-"), T("last", 0, "-"), T("max", 0, "lt"), T("min", 0, "ltmod3"),
            T("any", 0, "gt2"), T("all", 0, "even"), T("none", 0, "odd"), T("done", 0, "-"), T("foreach", 0, "-"),
            T("reduce", 0, "-"), T("forall", 0, "-"), T("forall", 2, "-"), T("parallel", 0, "-")}
